@@ -59,7 +59,7 @@ def gen_date(rng):
     h, mi, s = rng.randint(0, 23), rng.randint(0, 59), rng.randint(0, 59)
     if r < 0.7:
         return base + f"{h:02d}{mi:02d}{s:02d}"
-    off = rng.choice(["-5:EST", "+1", "0", "-0.30", "+5.30:IST", "-12", "+14"])
+    off = rng.choice(["-5:EST", "+1", "0", "-0.30", "+5.30:IST", "-12", "+14", "-3.30:NST", "-2.30:NDT", "-9.30:MART", "+12.45", "-11.59", "+0.01"])
     return base + f"{h:02d}{mi:02d}{s:02d}.{rng.randint(0, 999):03d}[{off}]"
 
 
